@@ -268,7 +268,9 @@ func (m *tsManager) SendTargetMsg(channelName string, msg *api.ReplicateMsg) {
 
 	ts, ok := m.channelTS2.Get(channelName)
 	if !ok {
-		log.Panic("send target msg failed", zap.String("channelName", channelName))
+		// the channel was cleared because its replicate entity has been shut down (all tasks paused or deleted)
+		// while this pack was still in flight; the pack is re-read from the checkpoint when the task resumes
+		log.Warn("skip the target msg because the channel has been cleared", zap.String("channelName", channelName))
 		return
 	}
 	ts.targetMsgChan <- msg
